@@ -20,6 +20,7 @@ PRELUDE = r'''
 #include <iostream>
 #include <sstream>
 #include <type_traits>
+#include <new>
 using namespace Vector::BLF;
 
 struct MemFile : AbstractFile {
@@ -70,6 +71,10 @@ def generate(info, out):
     for c in classes:
         src += '    if (c == "%s") return new %s;\n' % (c, c)
     src += '    return nullptr;\n}\n'
+    src += 'static ObjectHeaderBase * make_at(const std::string & c, unsigned char fill) {\n'
+    for c in classes:
+        src += '    if (c == "%s") { void * b = ::operator new(sizeof(%s)); memset(b, fill, sizeof(%s)); return new (b) %s; }\n' % (c, c, c, c)
+    src += '    return nullptr;\n}\n'
     # per class: set / get / size / fill
     for c in classes:
         leaves = info.leaves(c)
@@ -105,6 +110,15 @@ int main(int argc, char ** argv) {
             std::string p; unsigned long long v = 0; is >> p >> v; unsigned long long o = 0;
             if (!op(obj, cls, cmd, p, v, &o)) { printf("{\"error\":\"unknown member %s\"}\n", p.c_str()); return 3; }
         } else if (cmd == "get") { std::string p; is >> p; gets.push_back(p); }
+        else if (cmd == "poisonctor") {
+            /* construct the class in two differently poisoned memory backgrounds and report one member of both */
+            std::string p; is >> p;
+            ObjectHeaderBase * a = make_at(cls, 0xAA); ObjectHeaderBase * b = make_at(cls, 0x55);
+            unsigned long long va = 0, vb = 0;
+            op(a, cls, "get", p, 0, &va); op(b, cls, "get", p, 0, &vb);
+            jnum(js, "a", (long long)va, first); jnum(js, "b", (long long)vb, first);
+            jnum(js, "a_type", (long long)a->objectType, first);
+        }
         else if (cmd == "write") {
             obj->write(f);
             jnum(js, "emitted", (long long)f.buf.size(), first);
